@@ -174,9 +174,9 @@ func (c Call) Len() int {
 }
 
 // RunOne executes one call as the main task of a fresh simulation.
-func RunOne(c Call, ch simrt.Chooser, budget int64) (Outcome, *simrt.Result) {
+func RunOne(c Call, ch simrt.Chooser, budget int64, nsPerStep int64) (Outcome, *simrt.Result) {
 	var out Outcome
-	res := simrt.Run(simrt.Config{Budget: budget, Chooser: ch}, func() {
+	res := simrt.Run(simrt.Config{Budget: budget, Chooser: ch, NsPerStep: nsPerStep}, func() {
 		out = Exec(c)
 	})
 	return out, res
